@@ -56,6 +56,21 @@ var vals = []string{"v", "value-with-some-length", "x", "a-considerably-longer-v
 func genOps(t *rapid.T) []op {
 	n := rapid.IntRange(4, 24).Draw(t, "n")
 	var ops []op
+	if rapid.IntRange(0, 7).Draw(t, "flushscenario") == 0 {
+		// volatile keys, then a flush, then growth by keys without an expiry: bookkeeping left behind by the
+		// flush must not be picked as a candidate (or looped over for ever) when the limit is reached
+		db := rapid.SampledFrom([]int{0, 1}).Draw(t, "fdb")
+		for i, nv := 0, rapid.IntRange(1, 3).Draw(t, "fvol"); i < nv; i++ {
+			ops = append(ops, op{DB: db, Cmd: []string{"SET", keys[i], rapid.SampledFrom(vals).Draw(t, "fv"), "EX", "1000"}})
+			if rapid.IntRange(0, 1).Draw(t, "fget") == 1 {
+				ops = append(ops, op{DB: db, Cmd: []string{"GET", keys[i]}})
+			}
+		}
+		ops = append(ops, op{DB: db, Cmd: []string{rapid.SampledFrom([]string{"FLUSHDB", "FLUSHDB", "FLUSHALL"}).Draw(t, "fflush")}})
+		for i, np := 0, rapid.IntRange(2, 5).Draw(t, "fpers"); i < np; i++ {
+			ops = append(ops, op{DB: db, Cmd: []string{"SET", keys[(i+3)%len(keys)], vals[len(vals)-1]}})
+		}
+	}
 	if rapid.IntRange(0, 3).Draw(t, "scenario") == 0 {
 		// a key that was volatile, was accessed, and then lost its deadline, followed by other volatile keys
 		// with more accesses and by growth: under the volatile policies it must never be chosen again
@@ -98,7 +113,7 @@ func genOps(t *rapid.T) []op {
 // storesThroughKeyspace: commands whose write goes through the keyspace's admission check.
 var storing = map[string]bool{"SET": true, "MSET": true, "HSET": true, "RPUSH": true, "APPEND": true, "INCR": true, "LPOP": true}
 
-func waitIdle() bool { return verifhook.WaitAsyncIdle(10 * time.Second) }
+func waitIdle() bool { return verifhook.WaitAsyncIdle(sut.Patience(10 * time.Second)) }
 
 func start(policy string, limit uint64) (*sut.Server, error) {
 	return sut.New(sut.Opts{Policy: policy, MaxMemory: limit})
@@ -244,6 +259,12 @@ func runCase(t *rapid.T, replay *caseData) {
 			fail("step %d %q panicked: %s", i, o.Cmd, strings.SplitN(r.Panic, "\n", 2)[0])
 		}
 		if !waitIdle() {
+			// the eviction pass that followed the command has not finished: does the server still answer?
+			sut.HangTimeout = 20 * time.Second
+			probe := s.Do("PTTL", keys[0])
+			if strings.HasPrefix(probe.Panic, "HANG") {
+				fail("%s: the eviction pass after step %d %q never finished, and the server no longer answers (%s)", cd.Policy, i, o.Cmd, probe.Panic)
+			}
 			fmt.Println("HARNESS-ERROR: cache goroutines did not become idle within 10 s (inconclusive)")
 			return
 		}
